@@ -864,12 +864,17 @@ def opt_families(run):
     L = filler_letter(run.seed)
     inv = ["PtrOk", "TriggersSufficient"]
     fams = [
-        Family("optmix", "/\\.%2|'\"`~ #?@:" + L, 2,     # (sizes fitted to ~2000 validated events/s x 22 configurations per input: thorough ~1.5 M events)
+        # (sizes fitted to the measured ~8000 validated events/s x 22 configurations per input: thorough ~4.5 M events in ~10 min)
+        Family("optmix", "/\\.%2|'\"`~ #?@:" + L, 2,
                prefixes=["http://h/", "x://h/", "gopher://h:70/", "file:///", "x:", "http://h/?", "x://h/#", "gopher://", "http://h/#", "", "gopher:", "http://u:p@h:8", "ws://"][:13 if not q else 8],
                bases=["http://u:p@b:81//p/./q?r#s"] if q else ["http://u:p@b:81//p/./q?r#s", "gopher://g/x"], invariants=inv),
         Family("optpath", "/\\.%C|2e" + L, 3 if q else 4, prefixes=["http://h/", "file:", "file:///"], suffixes=[""], invariants=inv),
         Family("optpathq", "/.%C|2" + L, 2, prefixes=["http://h/", "file:///"], suffixes=["?a'b#c`d"], invariants=inv),
-        Family("optquery", "&=a+'\"|~%b", 2 if q else 3, prefixes=["http://h/?", "x://h/?", "http://h/?b=2&a=1&"], suffixes=["", "#f|~\""], invariants=inv),
+    ] + ([] if q else [
+        Family("optmix3", "/\\.%2|'\"`~ #?@:" + L, 3, minlen=3, prefixes=["http://h/", "x://h/", "gopher://h:70/", "file:///", "x:", "http://h/?", "x://h/#", ""],
+               bases=["http://u:p@b:81//p/./q?r#s"], invariants=inv),
+    ]) + [
+        Family("optquery", "&=a+'\"|~%b", 2 if q else 4, prefixes=["http://h/?", "x://h/?", "http://h/?b=2&a=1&"], suffixes=["", "#f|~\""], invariants=inv),
         Family("optraw", [0x110080, 0x1100FF, ord(L), ord("/"), ord("%"), ord(".")], 3 if q else 4, prefixes=["http://h/", "http://", "x:"], invariants=["PtrOk"]),
         Family("optnoscheme", L + "./:@?#", 3 if q else 4, prefixes=["", "h", "//"], invariants=inv),
         # references against bases with an opaque path (a relative reference fails there for a reason other than a missing scheme of the input)
@@ -985,12 +990,15 @@ def check_c17(run):
         absorb_events(run, bad, f.name)
         run.distinct += n
     # (2) GoogleSafeBrowsing / Semantic (and the others again): every spelling of the ordinary-web-URL grammar
-    gf = canon_family(run, "grammar", "spell", 1 if q else 2, not q)
-    mod = gf.write(run.scratch)
-    bad, n = run.tlc_events(mod, gf.name, "idem", cfg=mod + ".cfg", chunks=14, events_args=["--names", "GoogleSafeBrowsing,Semantic,WhatWgSortQuery,canon:repeated_decode"], timeout=1800)
-    run.samples.append("[grammar/idem] %d events over the ordinary-web-URL grammar (schemes %s, hosts %s) with up to %d re-spelled characters" % (n, gf.schemes, gf.hosts, gf.k))
-    absorb_events(run, bad, gf.name)
-    run.distinct += n
+    #     quick: one re-spelled character on the small grammar (~0.1 M events); thorough: one on the large grammar and two on the small one (~1 M each;
+    #     two on the large grammar would be 11 M events)
+    for gname, k, big in ([("grammar", 1, False)] if q else [("grammar", 1, True), ("grammar_k2", 2, False)]):
+        gf = canon_family(run, gname, "spell", k, big)
+        mod = gf.write(run.scratch)
+        bad, n = run.tlc_events(mod, gf.name, "idem", cfg=mod + ".cfg", chunks=14, events_args=["--names", "GoogleSafeBrowsing,Semantic,WhatWgSortQuery,canon:repeated_decode"], timeout=1800)
+        run.samples.append("[%s/idem] %d events over the ordinary-web-URL grammar (schemes %s, hosts %s) with up to %d re-spelled characters" % (gf.name, n, gf.schemes, gf.hosts, gf.k))
+        absorb_events(run, bad, gf.name)
+        run.distinct += n
     # pinned reproducers of the open findings (re-run on every invocation; they print KNOWN-FINDING while they still fail)
     from .core import cps
     pf = os.path.join(run.scratch, "pinned_c17.txt")
